@@ -115,7 +115,8 @@ fn backends_for(class: u8) -> Vec<u8> {
 }
 
 pub fn add_grids(p: &mut Plan, q: bool, boundary_words: bool) {
-    let lmax = 100usize;
+    // the memory-safety legs (C01) use the shorter grid in the quick tier; C12 always the full one
+    let lmax = if q && !boundary_words { 64usize } else { 100usize };
     let aligns: Vec<usize> = if q { vec![0, 1, 15, 31] } else { (0..32).collect() };
     let mut tasks: Vec<TaskFn> = Vec::new();
     // the class tables of the crate must be the classes of the statement
